@@ -342,6 +342,9 @@ def check_full(rng, rec):
     s += rng.choice([". Further text follows.", "; the rest.", "."]) if needs_term else \
         rng.choice([". Further text follows.", "; the rest.", ".", "", ", and so on."])
     if s.endswith(".") and rng.random() < 0.25:
+        # later parentheses in the same paragraph (inside the 300-character scan window)
+        s += rng.choice([" The court (per curiam) agreed.", " (Emphasis added.)", " See the appendix (table 2) and note 3 (below)."])
+    if s.endswith(".") and rng.random() < 0.25:
         # the same case referred to again by name and pin cite later in the document (a reference
         # citation; it must not disturb the components of the written citations)
         s += f" The court in {rng.choice([D, P.split()[-1]])} at {page + rng.randint(1, 9)} agreed."
@@ -414,7 +417,7 @@ def check_antecedent_full(rng, rec):
     rep = rng.choice(gen.DB.std)
     vol, page = rng.randint(1, 999), rng.randint(1, 1500)
     pre_pin = rng.random() < 0.3
-    post_pin = gen.pinshape(rng, page) if (not pre_pin and rng.random() < 0.6) else None
+    post_pin = gen.pinshape(rng, page) if rng.random() < 0.6 else None
     year = rng.randint(1800, gen.YEARNOW) if rng.random() < 0.6 else None
     lead = rng.choice(["", "As in ", "Under ", "In "])
     s = lead + name + (f" at {page + 3}" if pre_pin else "") + ", "
@@ -436,9 +439,13 @@ def check_antecedent_full(rng, rec):
         return fail(rec, "antefull_span", case, observed=c.span(), expected=(st, en))
     if c.metadata.antecedent_guess != name:
         return fail(rec, "antefull_antecedent", case, observed=c.metadata.antecedent_guess, expected=name)
+    # with a pin cite on both sides the one attached to the antecedent is reported; the pin-cite span must
+    # cover whichever text is reported (C02), here checked directly
     exp_pin = f"at {page + 3}" if pre_pin else post_pin
     if c.metadata.pin_cite != exp_pin:
         return fail(rec, "antefull_pin_cite", case, observed=c.metadata.pin_cite, expected=exp_pin)
+    if exp_pin and exp_pin not in s[c.span_with_pincite()[0]:c.span_with_pincite()[1]]:
+        return fail(rec, "antefull_pin_span", case, observed=c.span_with_pincite(), expected=exp_pin)
     if exp_pin:
         rec.count("pin_cites_checked")
     if c.metadata.year != (str(year) if year else None) or c.year != year:
